@@ -30,7 +30,7 @@ use std::sync::OnceLock;
 /// // f(x) = 0.6 * N(-2.5, 1.0) + 0.4 * N(2.0, 2.1)
 /// let mm = Mixture::new(vec![0.6, 0.4], vec![g1, g2]).unwrap();
 /// ```
-#[derive(Debug, Clone, PartialEq)]
+#[derive(Debug, Clone)]
 pub struct Mixture<Fx> {
     /// The weights for each component distribution. All entries must be
     /// positive and sum to 1.
@@ -39,6 +39,14 @@ pub struct Mixture<Fx> {
     components: Vec<Fx>,
     // Cached ln(weights)
     ln_weights: OnceLock<Vec<f64>>,
+}
+
+// Equality is over the parameters only; the lazily computed `ln_weights`
+// cache must not take part in the comparison.
+impl<Fx: PartialEq> PartialEq for Mixture<Fx> {
+    fn eq(&self, other: &Self) -> bool {
+        self.weights == other.weights && self.components == other.components
+    }
 }
 
 pub struct MixtureParameters<Fx: Parameterized> {
